@@ -269,7 +269,10 @@ func (it *TxnIterator) materializeEntry(entry *kv.Entry, cf kv.ColumnFamily, use
 	it.entry.Version = version
 	if kv.IsValuePtr(entry) {
 		if it.opt.KeyOnly {
-			it.entry.Value = entry.Value
+			// Keep the pointer bytes in a buffer owned by the iterator: entry.Value
+			// is memtable/block memory and the next inline value is appended into
+			// it.entry.Value[:0].
+			it.entry.Value = append(it.entry.Value[:0], entry.Value...)
 			it.item.valueBuf = it.item.valueBuf[:0]
 		} else {
 			var vp kv.ValuePtr
